@@ -17,6 +17,7 @@ import glob
 import json
 import os
 import re
+import time
 
 import yvlib
 from yvlib import hx, log
@@ -40,6 +41,8 @@ CODE_LIMIT = ("Loop body too large.", "Too many constants in one chunk.", "Too m
               "Too much code to jump over.")
 MSG_RE = re.compile(r'\A\[module "main", line (\d+)\] Error( at end| at \'.*\')?: .+\Z', re.S)
 CASE_MS = 2000
+REDO_MAX = 120
+SCALE = float(os.environ.get("C03_SCALE", "1"))     # developer option: scales the random families (mutation runs)
 
 # canonical lexeme of every token kind, in the order of enum TokenKind (Error: an unexpected character, Eof: cut)
 LEX = ["(", ")", "{", "}", "[", "]", ",", ".", "..", "-", "-=", "+", "+=", ":", ";", "/", "/=", "*", "*=", "!", "!=", "=",
@@ -247,7 +250,7 @@ def gen_program(rng):
 
 
 def ladders(rng, quick):
-    depths = [1, 2, 7, 8, 9, 10, 50, 199, 200] if quick else [1, 2, 3, 7, 8, 9, 10, 17, 50, 100, 150, 199, 200]
+    depths = [1, 2, 8, 9, 60, 200] if quick else [1, 2, 3, 7, 8, 9, 10, 17, 50, 100, 150, 199, 200]
     res = []
     for d in depths:
         fam = {
@@ -410,17 +413,27 @@ def run_impl(binary, srcs, opts="-", batch=40):
             for i, im in zip(c, p):
                 out[i] = im
     if redo:
+        # a failing batch is re-run text by text; bounded, so that a compiler that hangs on most inputs costs minutes, not hours
+        for i in redo[REDO_MAX:]:
+            out[i] = Impl("skipped")
+        redo = redo[:REDO_MAX]
         sub = run_impl(binary, [srcs[i] for i in redo], opts, batch=1)
         for i, im in zip(redo, sub):
             out[i] = im
     # a timeout is confirmed by a second run of the text alone (machine load must not produce an alarm)
     tmo = [i for i, im in enumerate(out) if im.kind == "timeout"]
     if tmo and batch == 1:
-        again = yvlib.run_harness(binary, ["c03 %s %s" % (opts, hx(srcs[i])) for i in tmo], case_timeout_ms=CASE_MS, shards=2)
-        for i, r in zip(tmo, again):
+        first = tmo[:10]
+        again = yvlib.run_harness(binary, ["c03 %s %s" % (opts, hx(srcs[i])) for i in first], case_timeout_ms=CASE_MS, shards=4)
+        refuted = 0
+        for i, r in zip(first, again):
             p = _parse_batch(r, 1)
             if p is not None:
                 out[i] = p[0]
+                refuted += 1
+        if refuted == len(first):
+            for i in tmo[10:]:
+                out[i] = Impl("skipped")
     return out
 
 
@@ -474,6 +487,9 @@ def nondeterministic_attrs(impl_msg, model_msg):
 def judge(ctx, tag, src, im, mo, st, model_applies=True):
     """one text: implementation result `im`, model verdict `mo` (string or None)"""
     nl = src.count("\n")
+    if im.kind == "skipped":
+        st["skipped"] += 1
+        return
     if im.kind in ("timeout", "crash", "panic"):
         what = {"timeout": "compile does not terminate within %d ms" % CASE_MS, "crash": "compile crashes the process",
                 "panic": "compile panics"}[im.kind]
@@ -534,7 +550,7 @@ def judge(ctx, tag, src, im, mo, st, model_applies=True):
 
 def new_stats():
     return {"viol": [], "corr": [], "fuel": 0, "fuel_samples": [], "codesize": 0, "model_failed": 0, "agree_ok": 0, "agree_err": 0,
-            "accepted": set(), "errclasses": set(), "attr_nondet": 0, "recovered": 0}
+            "accepted": set(), "errclasses": set(), "attr_nondet": 0, "recovered": 0, "skipped": 0}
 
 
 def check_texts(ctx, cases, st, tag, debug_subset=None, model_applies=True):
@@ -552,12 +568,12 @@ def check_texts(ctx, cases, st, tag, debug_subset=None, model_applies=True):
         dimpl = run_impl(dbg, [s for _, s in sub], batch=1 if big else 25)
         for (fam, s), im, i in zip(sub, dimpl, debug_subset):
             r = impl[i]
-            if im.kind in ("timeout",):
+            if im.kind in ("timeout", "skipped"):
                 # the debug build is ~50x slower: a timeout there is re-judged on the release result only
                 continue
             if im.kind in ("crash", "panic"):
                 judge(ctx, fam + ":debug", s, im, model[i], st, model_applies)
-            elif (im.kind, im.msgs) != (r.kind, r.msgs):
+            elif r.kind in ("ok", "err") and (im.kind, im.msgs) != (r.kind, r.msgs):
                 st["corr"].append("debug and release builds disagree on %r: %r vs %r" % (s[:200], im, r))
     return impl, model
 
@@ -684,7 +700,7 @@ def build_cases(ctx):
     rng = ctx.rng
     quick = ctx.quick()
     files = corpus_files()
-    chosen = files if not quick else rng.sample(files, min(60, len(files)))
+    chosen = files if not quick else rng.sample(files, min(max(1, int(60 * SCALE)), len(files)))
     cases = []
     dist = {}
 
@@ -697,7 +713,8 @@ def build_cases(ctx):
             add("lineprefix", p)
         for p in char_prefixes(rng, src, 8 if quick else 25):
             add("charprefix", p)
-    nt, nc, nr, ng = (2500, 1200, 500, 400) if quick else (36000, 16000, 7000, 6000)
+    nt, nc, nr, ng = (1800, 900, 400, 250) if quick else (36000, 16000, 7000, 6000)
+    nt, nc, nr, ng = [max(1, int(x * SCALE)) for x in (nt, nc, nr, ng)]
     for _ in range(nt):
         add("tokmut", token_mutant(rng, rng.choice(files)[1]))
     for _ in range(nc):
@@ -735,14 +752,27 @@ def run(ctx):
             uniq.append((fam, s))
     dbg = sorted(rng.sample(range(len(uniq)), min(len(uniq), 400 if quick else 3000)))
     log("[C03] %d texts (%d distinct), families %s" % (len(cases), len(uniq), dist))
-    check_texts(ctx, uniq, st, "main", debug_subset=dbg)
+    t0 = time.time()
+    SL = 2500
+    dbgset = set(dbg)
+    for a in range(0, len(uniq), SL):
+        part = uniq[a:a + SL]
+        check_texts(ctx, part, st, "main%d" % (a // SL), debug_subset=[i - a for i in range(a, a + len(part)) if i in dbgset])
+        if len(st["viol"]) >= 5:
+            ctx.notes.append("stopped after %d of %d texts: %d violations found" % (a + len(part), len(uniq), len(st["viol"])))
+            break
+    log("[C03] main texts judged in %.0fs" % (time.time() - t0))
     # ladders and limits: both builds for all
     lad = ladders(rng, quick)
-    check_texts(ctx, lad, st, "ladders", debug_subset=list(range(len(lad))))
     lim = limits(rng)
-    check_texts(ctx, lim, st, "limits", debug_subset=list(range(len(lim))))
     cs = code_size_inputs()
-    check_texts(ctx, cs, st, "codesize", model_applies=False)
+    if len(st["viol"]) < 5:
+        check_texts(ctx, lad, st, "ladders", debug_subset=list(range(len(lad))))
+    if len(st["viol"]) < 5:
+        check_texts(ctx, lim, st, "limits", debug_subset=list(range(len(lim))))
+    if len(st["viol"]) < 5:
+        check_texts(ctx, cs, st, "codesize", model_applies=False)
+    log("[C03] ladders, limits, code-size inputs judged at %.0fs" % (time.time() - t0))
     # accepted texts must be runnable: no panic of the interpreter (a run that does not finish in time is not judged)
     acc = sorted(s for s in st["accepted"] if s not in corpus_texts and len(s) < 5000)
     sample = rng.sample(acc, min(len(acc), 300 if quick else 3000))
@@ -761,6 +791,7 @@ def run(ctx):
             st["viol"].append(dict(what="an accepted text panics the interpreter when run", input=s, expected="runnable function",
                                    actual=p[0].detail, family="run", cls="runpanic"))
     nshapes, discr, nprogs = operator_pairs(ctx, st, VALUE_SETS[:2] if quick else VALUE_SETS)
+    log("[C03] run sample and operator pairs done at %.0fs" % (time.time() - t0))
     finish(ctx, st, uniq, lad, lim, cs, dist, corpus_texts, len(sample), run_timeouts, nshapes, discr, nprogs, len(dbg) + len(lad) + len(lim))
 
 
@@ -818,7 +849,7 @@ def finish(ctx, st, uniq, lad, lim, cs, dist, corpus_texts, nrun, run_timeouts, 
         "distinct_error_classes": len(st["errclasses"]),
         "distinct_accepted_noncorpus": len(novel),
         "agree_ok": st["agree_ok"], "agree_err": st["agree_err"], "err_with_recovery_messages": st["recovered"],
-        "out_of_fuel": st["fuel"], "code_size_dependent": st["codesize"], "attr_order_nondeterministic": st["attr_nondet"],
+        "out_of_fuel": st["fuel"], "not_judged_after_many_failures": st["skipped"], "code_size_dependent": st["codesize"], "attr_order_nondeterministic": st["attr_nondet"],
         "texts_by_family": dist, "ladders": len(lad), "limits": len(lim), "code_size_inputs": len(cs),
         "debug_build_texts": ndebug, "run_sample": nrun, "run_timeouts_not_judged": run_timeouts,
         "operator_shapes": nshapes, "operator_shapes_discriminated": discr, "operator_programs": nprogs,
